@@ -77,7 +77,7 @@ def gen_chart(rng, P):
           eff.append([i, sg, lst])
   st = lambda: [rng.choice("hf") for _ in range(n)]
   chart = {
-    "n": n, "par": par, "init": init, "sigs": sigs, "react": react, "eff": eff, "bad": [],
+    "n": n, "par": par, "init": init, "sigs": sigs, "react": react, "eff": eff, "bad": [], "build": "dyn", "reg": [],
     "xstyle": st(), "estyle": st(), "istyle": st(),
     "spied": rng.random() < P["p_spied"], "host": host,
     "cap": rng.choice(P["caps"]), "spy_ring": rng.choice([6, 10, 25, 500]), "trc_ring": rng.choice([2, 3, 5, 500]),
